@@ -13,7 +13,7 @@
 (*   re-encodes the result.  Every action logs what must be observed on the   *)
 (*   real library.                                                            *)
 (* Part 4 - the property, as invariants over the real variables.              *)
-EXTENDS NXWire, Json, Bitwise
+EXTENDS NXWire, Json, Bitwise, SequencesExt
 
 CONSTANTS Cases,       \* set of case descriptors [tag, msg, mods]; see MCOFWire.tla
           Around       \* set of <<pre, post>>: numbers of foreign bytes before / after the message in the
@@ -76,12 +76,16 @@ OFLayout == [
   srep_port        |-> SRep(4) \o <<List("body", "portstat")>>,
   srep_queue       |-> SRep(5) \o <<List("body", "queuestat")>>,
   srep_vendor      |-> SRep(65535) \o <<U("vendor", 4), Rest("data")>>,
+  \* statistics types the library has no structure for travel as opaque bodies
+  sreq_generic     |-> Hdr(16) \o <<U("stype", 2), U("flags", 2), Rest("data")>>,
+  srep_generic     |-> Hdr(17) \o <<U("stype", 2), U("flags", 2), Rest("data")>>,
   \* ---- structures
   phy_port         |-> <<U("port_no", 2), U("hw_addr", 6), Str("name", 16), U("config", 4), U("state", 4),
                          U("curr", 4), U("advertised", 4), U("supported", 4), U("peer", 4)>>,
   packet_queue     |-> <<U("queue_id", 4), LenF, Pad(2), List("properties", "prop")>>,
   qp_none          |-> <<Const(<<0, 0>>), LenF, Pad(4)>>,
   qp_min_rate      |-> <<Const(<<0, 1>>), LenF, Pad(4), U("rate", 2), Pad(6)>>,
+  qp_generic       |-> <<U("property", 2), LenF, Rest("data")>>,            \* a property type the library does not know
   flow_stats       |-> <<LenF, U("table_id", 1), Pad(1), Sub("match", "match"), U("duration_sec", 4),
                          U("duration_nsec", 4), U("priority", 2), U("idle_timeout", 2), U("hard_timeout", 2),
                          Pad(6), U("cookie", 8), U("packet_count", 8), U("byte_count", 8),
@@ -106,9 +110,11 @@ OFLayout == [
   a_set_tp_dst     |-> Act(10) \o <<U("tp_port", 2), Pad(2)>>,
   a_enqueue        |-> Act(11) \o <<U("port", 2), Pad(6), U("queue_id", 4)>>,
   a_vendor         |-> Act(65535) \o <<U("vendor", 4), Rest("body")>>,
+  a_generic        |-> <<U("type", 2), LenF, Rest("data")>>,                \* an action type the library does not know
   \* ---- bare lists, as handed to the library's list decoders
   actions          |-> <<List("actions", "action")>>,
-  props            |-> <<List("props", "prop")>> ]
+  props            |-> <<List("props", "prop")>>,
+  nxmatch          |-> <<List("match", "nxm")>> ]
 
 Layout == OFLayout @@ NXActionLayout @@ NXMsgLayout
 Kinds == DOMAIN Layout
@@ -120,12 +126,12 @@ Declared == [ hello |-> 8, error |-> 12, echo_request |-> 8, echo_reply |-> 8, v
   barrier_request |-> 8, barrier_reply |-> 8, queue_get_config_request |-> 12, queue_get_config_reply |-> 16,
   sreq_desc |-> 12, sreq_flow |-> 56, sreq_aggregate |-> 56, sreq_table |-> 12, sreq_port |-> 20,
   sreq_queue |-> 20, sreq_vendor |-> 16, srep_desc |-> 1068, srep_flow |-> 12, srep_aggregate |-> 36,
-  srep_table |-> 12, srep_port |-> 12, srep_queue |-> 12, srep_vendor |-> 16,
-  phy_port |-> 48, packet_queue |-> 8, qp_none |-> 8, qp_min_rate |-> 16, flow_stats |-> 88, table_stats |-> 64,
+  srep_table |-> 12, srep_port |-> 12, srep_queue |-> 12, srep_vendor |-> 16, sreq_generic |-> 12, srep_generic |-> 12,
+  phy_port |-> 48, packet_queue |-> 8, qp_none |-> 8, qp_min_rate |-> 16, qp_generic |-> 4, a_generic |-> 4, flow_stats |-> 88, table_stats |-> 64,
   port_stats |-> 104, queue_stats |-> 32, u16 |-> 2,
   a_output |-> 8, a_set_vlan_vid |-> 8, a_set_vlan_pcp |-> 8, a_strip_vlan |-> 8, a_set_dl_src |-> 16,
   a_set_dl_dst |-> 16, a_set_nw_src |-> 8, a_set_nw_dst |-> 8, a_set_nw_tos |-> 8, a_set_tp_src |-> 8,
-  a_set_tp_dst |-> 8, a_enqueue |-> 16, a_vendor |-> 8, actions |-> 0, props |-> 0 ] @@ NXActionSize @@ NXMsgSize
+  a_set_tp_dst |-> 8, a_enqueue |-> 16, a_vendor |-> 8, actions |-> 0, props |-> 0, nxmatch |-> 0 ] @@ NXActionSize @@ NXMsgSize
 
 MatchSize == 40
 FixedW(d) == CASE d.t \in {"u", "pad", "const", "len", "lenof", "cntof", "str"} -> d.w
@@ -136,9 +142,9 @@ ASSUME DeclaredSizes == DOMAIN Declared = Kinds /\ \A k \in Kinds : FixedSize(k)
 
 MsgKinds == {k \in Kinds : Len(Layout[k]) >= 4 /\ Layout[k][1] = Const(<<1>>)}
 IsMsg(k) == k \in MsgKinds
-ActionKinds == {k \in Kinds : Len(Layout[k]) >= 2 /\ Layout[k][2].t = "len" /\ Layout[k][1].t = "const"
-                              /\ Layout[k][1].w = 2} \ {"qp_none", "qp_min_rate"}
-PropKinds == {"qp_none", "qp_min_rate"}
+ActionKinds == ({k \in Kinds : Len(Layout[k]) >= 2 /\ Layout[k][2].t = "len" /\ Layout[k][1].t = "const"
+                               /\ Layout[k][1].w = 2} \ {"qp_none", "qp_min_rate"}) \cup {"a_generic"}
+PropKinds == {"qp_none", "qp_min_rate", "qp_generic"}
 
 (* ---- ofp_match ----------------------------------------------------------- *)
 (* Abstract value: every field is its bytes, or <<>> when wildcarded; nw_src /*)
@@ -283,10 +289,12 @@ Enc(sv, free) ==
     [] OTHER -> LET L == Layout[sv.k] IN Cat([i \in 1..Len(L) |-> EncField(sv, L[i], free)])
 Wire(sv) == Enc(sv, FALSE)
 RECURSIVE HasMatch(_)
-HasMatch(sv) == sv.k = "match" \/ (sv.k \notin Special /\ \E i \in 1..Len(Layout[sv.k]) :
-                   LET d == Layout[sv.k][i] IN
-                   \/ d.t = "sub" /\ HasMatch(sv.f[d.n])
-                   \/ d.t \in Lists /\ \E j \in 1..Len(sv.f[d.n]) : HasMatch(sv.f[d.n][j]))
+HasMatch(sv) == IF sv.k \in Special THEN sv.k = "match"
+                ELSE \E i \in 1..Len(Layout[sv.k]) :
+                       LET d == Layout[sv.k][i] IN
+                       IF d.t = "sub" THEN HasMatch(sv.f[d.n])
+                       ELSE IF d.t \in Lists THEN \E j \in 1..Len(sv.f[d.n]) : HasMatch(sv.f[d.n][j])
+                       ELSE FALSE
 \* sparse form of the free image: <<position (0-based), mask>> of the non-zero bytes
 FreeBits(sv) == IF ~HasMatch(sv) THEN {}
                 ELSE LET fr == Enc(sv, TRUE) IN {<<i - 1, fr[i]>> : i \in {j \in 1..Len(fr) : fr[j] # 0}}
@@ -322,16 +330,19 @@ WF(sv) ==
 (*    entry), and no value bit outside the mask; one entry per field          *)
 CtrlPort == <<255, 253>>
 NoBuffer == <<255, 255, 255, 255>>
-ChildrenOf(sv, d) == IF d.t = "sub" THEN {sv.f[d.n]}
-                     ELSE IF d.t \in Lists THEN {sv.f[d.n][j] : j \in 1..Len(sv.f[d.n])} ELSE {}
-Subs(sv) == IF sv.k \in Special THEN {}
-            ELSE UNION {ChildrenOf(sv, Layout[sv.k][i]) : i \in 1..Len(Layout[sv.k])}
+\* P holds for every structure directly nested in sv
+AllSubs(sv, P(_)) ==
+  IF sv.k \in Special THEN TRUE
+  ELSE \A i \in 1..Len(Layout[sv.k]) : LET d == Layout[sv.k][i] IN
+         /\ (d.t = "sub" => P(sv.f[d.n]))
+         /\ (d.t \in Lists => \A j \in 1..Len(sv.f[d.n]) : P(sv.f[d.n][j]))
 NxmKnown(e) ==
   /\ <<Num2(e.f.vendor, 1), e.f.field[1], Len(e.f.value)>> \in NxmFields
   /\ e.f.mask # <<>> =>
        /\ <<Num2(e.f.vendor, 1), e.f.field[1]>> \in NxmMaskable
        /\ \E i \in 1..Len(e.f.mask) : e.f.mask[i] # 255
        /\ \A i \in 1..Len(e.f.mask) : (e.f.value[i] & (255 - e.f.mask[i])) = 0
+       /\ (<<Num2(e.f.vendor, 1), e.f.field[1]>> = <<1, 34>> => e.f.mask[1] < 16)    \* TCP flags are 12 bits
 IsNxmHeader(h) == \E t \in NxmFields : h = NxmHeader(BE(t[1], 2), <<t[2]>>, FALSE, t[3])
 NxmDistinct(l) == \A i, j \in 1..Len(l) : i # j => <<l[i].f.vendor, l[i].f.field>> # <<l[j].f.vendor, l[j].f.field>>
 FmsKnown(s) ==
@@ -343,9 +354,12 @@ OwnRule(sv) ==
     [] sv.k = "packet_out" -> sv.f.buffer_id = NoBuffer \/ sv.f.data = <<>>
     [] sv.k = "a_vendor" -> Len(sv.f.body) % 8 = 0 /\ sv.f.vendor # NXVendor
     [] sv.k = "vendor" -> sv.f.vendor # NXVendor
+    [] sv.k = "a_generic" -> Num2(sv.f.type, 1) \notin (0..11) \cup {65535} /\ (4 + Len(sv.f.data)) % 8 = 0
+    [] sv.k = "qp_generic" -> Num2(sv.f.property, 1) \notin {0, 1} /\ (4 + Len(sv.f.data)) % 8 = 0
+    [] sv.k \in {"sreq_generic", "srep_generic"} -> Num2(sv.f.stype, 1) \notin (0..5) \cup {65535}
     [] sv.k = "nxm" -> NxmKnown(sv)
     [] sv.k = "fms" -> FmsKnown(sv)
-    [] sv.k \in {"nx_flow_mod", "nxt_packet_in"} -> NxmDistinct(sv.f.match)
+    [] sv.k \in {"nx_flow_mod", "nxt_packet_in", "nxmatch"} -> NxmDistinct(sv.f.match)
     [] sv.k = "nx_flow_mod_table_id" -> sv.f.enable \in {<<0>>, <<1>>}
     [] sv.k = "nxa_reg_move" -> IsNxmHeader(sv.f.src) /\ IsNxmHeader(sv.f.dst)
     [] sv.k = "nxa_reg_load" -> IsNxmHeader(sv.f.dst)
@@ -354,7 +368,7 @@ OwnRule(sv) ==
     [] sv.k = "nxa_bundle_load" -> sv.f.slave_type = <<0, 0, 0, 2>> /\ IsNxmHeader(sv.f.dst)
     [] OTHER -> TRUE
 RECURSIVE Constructible(_)
-Constructible(sv) == OwnRule(sv) /\ \A c \in Subs(sv) : Constructible(c)
+Constructible(sv) == OwnRule(sv) /\ AllSubs(sv, Constructible)
 
 (* ---- decoding -------------------------------------------------------------*)
 \* which structure starts at b[o], for each list family
@@ -368,12 +382,12 @@ ActKind(b, o) ==
   CASE t = 0 -> "a_output" [] t = 1 -> "a_set_vlan_vid" [] t = 2 -> "a_set_vlan_pcp" [] t = 3 -> "a_strip_vlan"
     [] t = 4 -> "a_set_dl_src" [] t = 5 -> "a_set_dl_dst" [] t = 6 -> "a_set_nw_src" [] t = 7 -> "a_set_nw_dst"
     [] t = 8 -> "a_set_nw_tos" [] t = 9 -> "a_set_tp_src" [] t = 10 -> "a_set_tp_dst" [] t = 11 -> "a_enqueue"
-    [] t = 65535 -> VendorActKind(b, o) [] OTHER -> "?"
+    [] t = 65535 -> VendorActKind(b, o) [] OTHER -> "a_generic"
 ElemKind(fam, b, o) ==
   CASE fam = "action" -> ActKind(b, o)
     [] fam = "port" -> "phy_port"
     [] fam = "queue" -> "packet_queue"
-    [] fam = "prop" -> (IF Num2(b, o) = 0 THEN "qp_none" ELSE IF Num2(b, o) = 1 THEN "qp_min_rate" ELSE "?")
+    [] fam = "prop" -> (IF Num2(b, o) = 0 THEN "qp_none" ELSE IF Num2(b, o) = 1 THEN "qp_min_rate" ELSE "qp_generic")
     [] fam = "flowstat" -> "flow_stats"
     [] fam = "tablestat" -> "table_stats"
     [] fam = "portstat" -> "port_stats"
@@ -392,7 +406,8 @@ ElemLen(fam, b, o, e) ==
     [] fam = "fms" -> IF o + 2 <= e THEN FmsLen(b, o) ELSE 0
 StatsKind(dir, t) ==
   CASE t = 0 -> dir \o "_desc" [] t = 1 -> dir \o "_flow" [] t = 2 -> dir \o "_aggregate" [] t = 3 -> dir \o "_table"
-    [] t = 4 -> dir \o "_port" [] t = 5 -> dir \o "_queue" [] t = 65535 -> dir \o "_vendor" [] OTHER -> "?"
+    [] t = 4 -> dir \o "_port" [] t = 5 -> dir \o "_queue" [] t = 65535 -> dir \o "_vendor"
+    [] OTHER -> dir \o "_generic"
 VendorMsgKind(b, o) ==
   IF Slice(b, o + 8, 4) # NXVendor \/ b[o + 12] # 0 \/ b[o + 13] # 0 \/ b[o + 14] # 0 THEN "vendor"
   ELSE LET ks == {k \in DOMAIN NXMsgSubtype : NXMsgSubtype[k] = b[o + 15]}
@@ -422,16 +437,27 @@ DecS(k, b, o, e) ==
     [] k = "fms" -> DecFms(b, o, e)
     [] k \notin Kinds -> Bad
     [] OTHER -> IF e - o < Declared[k] THEN Bad ELSE DecFields(k, 1, b, o, o, e, <<>>, <<>>)
-\* structures of family fam in b[p .. e-1]; cnt >= 0: exactly cnt of them (then e is only a limit);
-\* zstop: stop at a zero 16-bit header.  Returns the values and the position reached.
+\* structures of family fam in b[p .. e-1].  opt.cnt >= 0: exactly cnt of them (then e is only a limit);
+\* opt.z: stop at a zero 16-bit header.  First the boundaries are found by following the length fields
+\* (an iteration, so that 8000 actions do not need 8000 nested evaluations), then each piece is decoded.
+MinLen(fam) == CASE fam \in {"action", "prop", "queue"} -> 8 [] fam = "flowstat" -> 88 [] fam = "port" -> 48
+                 [] fam = "tablestat" -> 64 [] fam = "portstat" -> 104 [] fam = "queuestat" -> 32
+                 [] fam = "nxm" -> 5 [] OTHER -> 2
+Scan(fam, b, p, e, opt) ==
+  FoldLeft(LAMBDA acc, i :
+             IF acc.stop THEN acc
+             ELSE IF IF opt.cnt >= 0 THEN Len(acc.at) = opt.cnt
+                     ELSE (acc.p = e \/ (opt.z /\ acc.p + 2 <= e /\ Num2(b, acc.p) = 0))
+                  THEN [acc EXCEPT !.stop = TRUE]
+                  ELSE LET n == IF acc.p >= e THEN 0 ELSE ElemLen(fam, b, acc.p, e) IN
+                       IF n = 0 \/ acc.p + n > e THEN [acc EXCEPT !.stop = TRUE, !.ok = FALSE]
+                       ELSE [acc EXCEPT !.at = Append(@, <<acc.p, n>>), !.p = acc.p + n],
+           [p |-> p, at |-> <<>>, ok |-> TRUE, stop |-> FALSE],
+           [i \in 1..((e - p) \div MinLen(fam) + 2) |-> i])
 DecList(fam, b, p, e, opt) ==
-  IF (opt.cnt = 0) \/ (opt.cnt < 0 /\ p = e) \/ (opt.z /\ p + 2 <= e /\ Num2(b, p) = 0)
-  THEN [ok |-> TRUE, v |-> <<>>, p |-> p]
-  ELSE LET n == ElemLen(fam, b, p, e) IN
-       IF p >= e \/ n = 0 \/ p + n > e THEN [ok |-> FALSE, v |-> <<>>, p |-> p]
-       ELSE LET r == DecS(ElemKind(fam, b, p), b, p, p + n)
-                rest == DecList(fam, b, p + n, e, [opt EXCEPT !.cnt = IF opt.cnt < 0 THEN opt.cnt ELSE opt.cnt - 1])
-            IN [ok |-> r.ok /\ rest.ok, v |-> <<r.v>> \o rest.v, p |-> rest.p]
+  LET sc == Scan(fam, b, p, e, opt)
+      rs == [j \in 1..Len(sc.at) |-> DecS(ElemKind(fam, b, sc.at[j][1]), b, sc.at[j][1], sc.at[j][1] + sc.at[j][2])]
+  IN [ok |-> sc.ok /\ sc.stop /\ \A j \in 1..Len(rs) : rs[j].ok, v |-> [j \in 1..Len(rs) |-> rs[j].v], p |-> sc.p]
 NoOpt == [cnt |-> 0 - 1, z |-> FALSE]
 DecFields(k, i, b, o, p, e, acc, aux) ==
   IF i > Len(Layout[k]) THEN [ok |-> p = e, v |-> SV(k, acc)]
@@ -456,12 +482,13 @@ DecFields(k, i, b, o, p, e, acc, aux) ==
                        IF r.ok THEN next(e, acc @@ (d.n :> r.v), aux) ELSE Bad
     [] d.t = "listn" -> IF p + aux[d.n] > e THEN Bad
                         ELSE LET r == DecList(d.k, b, p, p + aux[d.n], NoOpt) IN
-                             IF r.ok THEN next(p + aux[d.n], acc @@ (d.n :> r.v), aux) ELSE Bad
+                             IF r.ok THEN next(p + aux[d.n], acc @@ (d.n :> r.v), aux @@ ((d.n \o "#") :> aux[d.n]))
+                             ELSE Bad
     [] d.t = "listc" -> LET r == DecList(d.k, b, p, e, [cnt |-> aux[d.n], z |-> FALSE]) IN
-                        IF r.ok THEN next(r.p, acc @@ (d.n :> r.v), aux @@ (d.n :> r.p - p)) ELSE Bad
+                        IF r.ok THEN next(r.p, acc @@ (d.n :> r.v), aux @@ ((d.n \o "#") :> r.p - p)) ELSE Bad
     [] d.t = "listz" -> LET r == DecList(d.k, b, p, e, [cnt |-> 0 - 1, z |-> TRUE]) IN
-                        IF r.ok THEN next(r.p, acc @@ (d.n :> r.v), aux @@ (d.n :> r.p - p)) ELSE Bad
-    [] d.t = "pad8" -> LET n == PadTo8(aux[d.n]) IN
+                        IF r.ok THEN next(r.p, acc @@ (d.n :> r.v), aux @@ ((d.n \o "#") :> r.p - p)) ELSE Bad
+    [] d.t = "pad8" -> LET n == PadTo8(aux[d.n \o "#"]) IN   \* "#": the number of bytes the list occupied
                        IF p + n <= e /\ AllZero(b, p, n) THEN next(p + n, acc, aux) ELSE Bad
 
 \* decode the message that starts at b[o]: its extent is the header's length field
@@ -471,8 +498,11 @@ DecMsg(b, o) ==
        IF n < 8 \/ o + n > Len(b) + 1 THEN [ok |-> FALSE, v |-> SV("?", <<>>), n |-> 0]
        ELSE LET r == DecS(MsgKind(b, o), b, o, o + n) IN [ok |-> r.ok, v |-> r.v, n |-> n]
 \* decode any top-level case: messages by dispatch, bare structures by their kind
+\* (ByClass: messages whose type code belongs to another class; the receiver names the class)
+ByClass == {"nx_ofp_flow_mod_table_id"}
 DecTop(k, b, o, e) ==
-  IF IsMsg(k) THEN DecMsg(b, o)
+  IF k \in ByClass THEN LET r == DecS(k, b, o, o + Num2(b, o + 2)) IN [ok |-> r.ok, v |-> r.v, n |-> Num2(b, o + 2)]
+  ELSE IF IsMsg(k) THEN DecMsg(b, o)
   ELSE LET r == DecS(k, b, o, e) IN [ok |-> r.ok, v |-> r.v, n |-> e - o]
 
 (* ========================================================================= *)
@@ -500,7 +530,7 @@ Junk(n) == [i \in 1..n |-> (i * 37 + 11) % 256]
 
 \* the caller constructs an object
 Choose(c) ==
-  /\ phase = "idle" /\ c \in Cases
+  /\ phase = "idle"
   /\ phase' = "chosen" /\ msg' = c.msg /\ todo' = c.mods
   /\ UNCHANGED <<wire, dec, consumed, wire2>>
   /\ Log("Choose", [tag |-> c.tag, msg |-> c.msg], [ok |-> TRUE])
@@ -508,9 +538,11 @@ Choose(c) ==
 \* obj.pack() and len(obj)
 Encode ==
   /\ phase = "chosen"
-  /\ phase' = "encoded" /\ wire' = Wire(msg)
+  /\ LET w == Wire(msg) IN
+       /\ wire' = w
+       /\ Log("Encode", [x |-> 0], [len |-> SizeOf(msg), wire |-> w, free |-> FreeBits(msg)])
+  /\ phase' = "encoded"
   /\ UNCHANGED <<msg, dec, consumed, wire2, todo>>
-  /\ Log("Encode", [x |-> 0], [len |-> SizeOf(msg), wire |-> Wire(msg), free |-> FreeBits(msg)])
 
 \* the caller changes the object it has already encoded once.  A path is a sequence of steps
 \* [f |-> field name, i |-> 0 (the field itself) or the index of an element of that list field];
@@ -539,7 +571,7 @@ Modify ==
 \* with post foreign bytes.
 Decode(src, pre, post) ==
   /\ phase = "encoded" /\ todo = <<>>
-  /\ src \in {"spec"} \cup (IF FreeBits(msg) = {} THEN {} ELSE {"own"})
+  /\ (IF src = "spec" THEN TRUE ELSE src = "own" /\ HasMatch(msg) /\ FreeBits(msg) # {})
   /\ <<pre, post>> \in Around
   /\ LET buf == Junk(pre) \o wire \o Junk(post)
          r == DecTop(msg.k, buf, pre + 1, pre + 1 + Len(wire))
@@ -553,9 +585,11 @@ Decode(src, pre, post) ==
 \* obj2.pack()
 Reencode ==
   /\ phase = "decoded"
-  /\ phase' = "done" /\ wire2' = Wire(dec)
+  /\ LET w == Wire(dec) IN
+       /\ wire2' = w
+       /\ Log("Reencode", [x |-> 0], [len |-> SizeOf(dec), wire |-> w, free |-> FreeBits(dec)])
+  /\ phase' = "done"
   /\ UNCHANGED <<msg, wire, dec, consumed, todo>>
-  /\ Log("Reencode", [x |-> 0], [len |-> SizeOf(dec), wire |-> Wire(dec), free |-> FreeBits(dec)])
 
 DecodeAny == \E src \in {"spec", "own"}, pp \in Around : Decode(src, pp[1], pp[2])
 ChooseAny == \E c \in Cases : Choose(c)
@@ -564,28 +598,31 @@ Spec == Init /\ [][Next]_vars
 
 (* ========================================================================= *)
 (* Part 4: the property                                                       *)
+(* Each invariant is stated for the phase in which the variables it reads were last written (the later  *)
+(* phases leave them UNCHANGED), which keeps TLC from re-encoding the same object in every state.       *)
 TypeOK == /\ phase \in {"idle", "chosen", "encoded", "decoded", "done"}
-          /\ (phase # "idle" => WF(msg) /\ Constructible(msg))
-          /\ IsBytes(wire) /\ IsBytes(wire2)
+          /\ (phase = "chosen" => WF(msg) /\ Constructible(msg))
+          /\ (phase = "encoded" => IsBytes(wire))
+          /\ (phase = "done" => IsBytes(wire2))
 \* the header length field (or the structure's own length field / declared size) is the byte count
 LenFieldOK ==
-  phase \in {"encoded", "decoded", "done"} =>
-    /\ Len(wire) = SizeOf(IF phase = "encoded" THEN msg ELSE msg)
+  phase = "encoded" =>
+    /\ Len(wire) = SizeOf(msg)
     /\ (IsMsg(msg.k) => Num2(wire, 3) = Len(wire) /\ wire[1] = 1)
     /\ Len(wire) <= 65535
 \* decoding consumes exactly the message and loses nothing
-ConsumedOK == phase \in {"decoded", "done"} => consumed = Len(wire)
-Lossless == phase \in {"decoded", "done"} => dec = msg
+ConsumedOK == phase = "decoded" => consumed = Len(wire)
+Lossless == phase = "decoded" => dec = msg
 \* re-encoding reproduces the bytes
 Stable == phase = "done" => wire2 = wire
 \* an encoding is always that of the object as it is now (no stale image after a change)
-Fresh == phase \in {"encoded", "decoded", "done"} => wire = Wire(msg)
-\* every action and queue property occupies a multiple of 8 bytes; lists are exhausted exactly
+Fresh == phase = "encoded" => wire = Wire(msg)
+\* every action and queue property occupies a multiple of 8 bytes
 RECURSIVE Aligned(_)
 Aligned(sv) ==
   /\ (sv.k \in ActionKinds \cup PropKinds \cup {"packet_queue"} => SizeOf(sv) % 8 = 0)
-  /\ \A c \in Subs(sv) : Aligned(c)
-Mult8 == phase # "idle" => Aligned(msg)
+  /\ AllSubs(sv, Aligned)
+Mult8 == phase = "chosen" => Aligned(msg)
 
 \* ---- export for the replay harness
 Export == (phase = "done") => PrintT(<<"H", ToJson(hist)>>)
